@@ -396,29 +396,63 @@ def all_specs(ctx, rng):
     return specs
 
 
-def draw_theta(rng, spec, shape, f32):
-    """theta of shape `shape + (n,)`, |theta_i| <= bound; half of the samples scale*normal, half per-entry log-uniform"""
+def draw_row(rng, spec, n, B, f32, kind):
+    """one parameter vector of the requested kind, |theta_i| <= B, accepted only if the pre-factor is well conditioned;
+    kinds: generic (scale*normal with scale log-uniform in [1e-8, B] | per-entry log-uniform | uniform O(1)),
+    hi / lo (every entry within 2% of +B / -B), offset (row constant c in [-B,B] plus a spread of 1.5), signs (|theta_i| within 2% of B, random signs)"""
+    def gen(kind):
+        if kind == 'hi':
+            return B * (1 - 0.02 * rng.random(n))
+        if kind == 'lo':
+            return -B * (1 - 0.02 * rng.random(n))
+        if kind == 'signs':
+            return B * (1 - 0.02 * rng.random(n)) * rng.choice([-1.0, 1.0], size=n)
+        if kind == 'offset':
+            return np.clip(rng.uniform(-B, B) + rng.uniform(-1.5, 1.5, size=n), -B, B)
+        mode = rng.integers(0, 3)
+        if mode == 0:
+            s = 10 ** rng.uniform(-8, math.log10(B))
+            return np.clip(s * rng.normal(size=n) / 3, -B, B)
+        if mode == 1:
+            return 10 ** rng.uniform(-3, math.log10(B), size=n) * rng.choice([-1.0, 1.0], size=n)
+        return rng.uniform(-1, 1, size=n) * min(B, 3.0)
+    plan = [kind] * 8 + (['signs'] * 8 if kind in ('hi', 'lo', 'offset') else []) + ['generic'] * 60
+    th = None
+    for k in plan:
+        th = gen(k)
+        if f32:
+            th = th.astype(np.float32).astype(np.float64)
+        if spec.wellcond(th, f32) and (n == 0 or np.any(th != 0)):
+            return th, k
+    while True:    # practically never reached: uniform O(1) entries are well conditioned with high probability
+        th = rng.uniform(-1, 1, size=n)
+        if f32:
+            th = th.astype(np.float32).astype(np.float64)
+        if spec.wellcond(th, f32):
+            return th, 'generic'
+
+
+def draw_theta(rng, spec, shape, f32, kinds_out=None):
+    """theta of shape `shape + (n,)`.  Batches of >= 2 samples are, with probability 0.6, *extreme batches*: one row near +bound, one row near
+    -bound, the others at per-row constant offsets — all inside the bound of the map; otherwise every row is drawn independently
+    (70% generic incl. tiny scales down to 1e-8, 30% hi/lo/offset/signs; the zero vector where legal)."""
     n = spec.nparam()
     B = spec.bound_for(f32)
     cnt = int(np.prod(shape)) if shape else 1
+    if cnt >= 2 and rng.random() < 0.6:
+        kinds = ['hi', 'lo'] + ['offset'] * (cnt - 2)
+        kinds = [kinds[i] for i in rng.permutation(cnt)]
+    else:
+        kinds = [('generic' if rng.random() < 0.7 else str(rng.choice(['hi', 'lo', 'offset', 'signs']))) for _ in range(cnt)]
     rows = []
     for k in range(cnt):
-        if spec.zero_ok and k == 0 and rng.integers(0, 6) == 0 and spec.wellcond(np.zeros(n), f32):
-            rows.append(np.zeros(n)); continue
-        for attempt in range(50):
-            mode = rng.integers(0, 3)
-            if mode == 0:
-                s = 10 ** rng.uniform(-2, math.log10(B))
-                th = np.clip(s * rng.normal(size=n) / 3, -B, B)
-            elif mode == 1:
-                th = 10 ** rng.uniform(-3, math.log10(B), size=n) * rng.choice([-1.0, 1.0], size=n)
-            else:
-                th = rng.uniform(-1, 1, size=n) * min(B, 3.0)
-            if f32:
-                th = th.astype(np.float32).astype(np.float64)
-            if spec.wellcond(th, f32) and (n == 0 or np.any(th != 0)):
-                break
+        if spec.zero_ok and kinds[k] == 'generic' and k == 0 and rng.integers(0, 6) == 0 and spec.wellcond(np.zeros(n), f32):
+            rows.append(np.zeros(n))
+            if kinds_out is not None: kinds_out.append('zero')
+            continue
+        th, used = draw_row(rng, spec, n, B, f32, kinds[k])
         rows.append(th)
+        if kinds_out is not None: kinds_out.append(used)
     return np.array(rows).reshape(tuple(shape) + (n,))
 
 
@@ -440,30 +474,45 @@ def rel_err(a, b):
 
 
 def run_specs(ctx, specs, rng, per_spec):
-    """shared by correspondence and probe: returns records (spec, backend, f32, shape, theta_rows, out_rows | error string)"""
+    """shared by correspondence and probe.  For every spec a number of (dtype, batch shape) picks — stratified: one float32 and one float64 pick
+    at least, batched shapes preferred — and for every pick ONE theta that is evaluated on BOTH backends.
+    Returns records (spec, backend, f32, shape, theta, output | error string, group id)."""
     recs = []
+    gid = 0
     for spec in specs:
-        combos = [(b, f, s) for (b, f) in BACKENDS for s in batch_shapes(rng)]
-        pick = combos if per_spec is None else [combos[i] for i in rng.choice(len(combos), size=min(per_spec, len(combos)), replace=False)]
-        for backend, f32, shp in pick:
+        shapes_ = batch_shapes(rng)
+        if per_spec is None:
+            pick = [(f, s) for f in (False, True) for s in shapes_]
+        else:
+            pick = []
+            for i in range(per_spec):
+                f32 = [True, False][i % 2] if i < 2 else bool(rng.integers(0, 2))
+                shp = shapes_[int(rng.choice([2, 3]))] if rng.random() < 0.7 else shapes_[int(rng.integers(0, 4))]
+                pick.append((f32, shp))
+        for f32, shp in pick:
             if isinstance(spec, StEuler) and len(shp) > 1:
-                continue    # to_stiefel_euler asserts theta.ndim <= 2 (tied separately)
-            th = draw_theta(rng, spec, shp, f32)
-            x = to_backend(th, backend, f32)
-            y = guarded(lambda: to_np(spec.call(x)))
-            recs.append((spec, backend, f32, shp, th, y))
+                shp = shapes_[2]    # to_stiefel_euler asserts theta.ndim <= 2 (the guard is tied separately)
+            kinds = []
+            th = draw_theta(rng, spec, shp, f32, kinds)
+            for k in kinds:
+                ctx.count('input-' + k)
+            gid += 1
+            for backend in ('np', 'torch'):
+                x = to_backend(th, backend, f32)
+                y = guarded(lambda: to_np(spec.call(x)))
+                recs.append((spec, backend, f32, shp, th, y, gid))
     return recs
 
 
 def correspondence(ctx):
     rng = np.random.default_rng(ctx.np_seed)
     specs = all_specs(ctx, rng)
-    recs = run_specs(ctx, specs, rng, 3 if ctx.quick() else None)
+    recs = run_specs(ctx, specs, rng, 2 if ctx.quick() else None)
     if not ctx.quick():
         for _ in range(3):      # thorough: four passes over the full option lattice
             recs += run_specs(ctx, specs, rng, None)
     ops, meta = [], []
-    for spec, backend, f32, shp, th, y in recs:
+    for spec, backend, f32, shp, th, y, _gid in recs:
         n = spec.nparam()
         rows = th.reshape(-1, n)
         osz = int(np.prod(spec.out_shape()))
@@ -524,13 +573,48 @@ def replay_of(spec, backend, f32, shp, th):
                 theta=[float(x) for x in np.asarray(th).reshape(-1)])
 
 
+def cross_backend(ctx, recs):
+    """numpy == torch on exactly the same theta (same dtype, same batch)"""
+    by = {}
+    for spec, backend, f32, shp, th, y, gid in recs:
+        by.setdefault(gid, {})[backend] = (spec, f32, shp, th, y)
+    for gid, d in by.items():
+        if 'np' not in d or 'torch' not in d:
+            continue
+        spec, f32, shp, th, a = d['np']
+        b = d['torch'][4]
+        if isinstance(a, str) or isinstance(b, str):
+            if a != b:
+                ctx.fail(f'{spec.name}:numpy==torch', f'{spec.key()}: numpy -> {a if isinstance(a, str) else "array"}, torch -> {b if isinstance(b, str) else "array"} '
+                                                      f'({"float32" if f32 else "float64"}, batch {shp})', replay_of(spec, 'np+torch', f32, shp, th))
+            continue
+        a = np.asarray(a).astype(np.complex128); b = np.asarray(b).astype(np.complex128)
+        if a.shape != b.shape:
+            ctx.fail(f'{spec.name}:numpy==torch', f'{spec.key()}: shapes {a.shape} vs {b.shape}', replay_of(spec, 'np+torch', f32, shp, th)); continue
+        if isinstance(spec, StQR):
+            rows = th.reshape(-1, spec.nparam())
+            a = np.stack([spec.canon(rows[s], x) for s, x in enumerate(a.reshape((-1,) + spec.out_shape()))])
+            b = np.stack([spec.canon(rows[s], x) for s, x in enumerate(b.reshape((-1,) + spec.out_shape()))])
+        tol = TOL32 if f32 else TOL64
+        if isinstance(spec, (SoExp, SoCayley)):
+            tol *= max(1.0, float(np.abs(th).max(initial=0)) * spec.dim / 10) * getattr(spec, 'order', 1)
+        fa, fb = np.isfinite(a), np.isfinite(b)
+        err = rel_err(a[fa & fb], b[fa & fb]) if np.any(fa & fb) else 0.0
+        if not np.array_equal(fa, fb) or err > tol:
+            ctx.fail(f'{spec.name}:numpy==torch', f'{spec.key()}: numpy and torch outputs differ (rel. diff {err:.3e}, non-finite entries numpy {int((~fa).sum())} / torch {int((~fb).sum())}; '
+                                                  f'{"float32" if f32 else "float64"}, batch {shp})', replay_of(spec, 'np+torch', f32, shp, th))
+        else:
+            ctx.probe_ok()
+
+
 def probe_constraints(ctx, rng):
     specs = all_specs(ctx, rng)
-    recs = run_specs(ctx, specs, rng, 4 if ctx.quick() else None)
+    recs = run_specs(ctx, specs, rng, 3 if ctx.quick() else None)
     if not ctx.quick():
         for _ in range(3):
             recs += run_specs(ctx, specs, rng, None)
-    for spec, backend, f32, shp, th, y in recs:
+    cross_backend(ctx, recs)
+    for spec, backend, f32, shp, th, y, _gid in recs:
         tol = PROBE32 if f32 else PROBE64
         n = spec.nparam()
         rows = th.reshape(-1, n)
